@@ -106,6 +106,11 @@ class Env:
                 p = st["pat"]
                 if H.kind(p) == "Bind" and p.get("sub") is None:
                     self.names[p["local"]] = sexpr(st["init"], self)
+                else:
+                    # destructuring let: every bound name is a path into the initialiser
+                    base = sexpr(st["init"], self)
+                    for l, pth in pat_paths(p).items():
+                        self.names.setdefault(l, "%s/%s" % (base, pth) if pth else base)
 
 
 STRIP_METHODS = {"clone", "as_ref", "to_owned", "into", "as_mut", "borrow", "to_vec", "into_iter", "iter", "copied", "cloned"}
